@@ -116,6 +116,8 @@ def bits_add(x, y, w, sub=False):
 def str_cat(a, b):
     """Concatenation of (possibly abstract) strings: ('str', text) | ('num', IV) | ('cat', [parts])."""
     def parts(x):
+        if isinstance(x, IV) and x.w == 8 and x.concrete():
+            return [('str', chr(x.lo & 0xFF))]
         if isinstance(x, tuple) and x[0] == 'cat':
             return list(x[1])
         if isinstance(x, tuple) and x[0] in ('str', 'num'):
@@ -524,6 +526,12 @@ class Interp:
             ch = children(n)
             c = self.truth(self.expr(ch[0], env), ch[0])
             return self.lval(ch[1] if c else ch[2], env)
+        if k in ('BinaryOperator', 'CompoundAssignOperator') and n.get('opcode', '').endswith('=') and n.get('opcode') not in ('==', '!=', '<=', '>='):
+            self.expr(n, env)
+            return self.lval(children(n)[0], env)
+        if k == 'UnaryOperator' and n.get('opcode') in ('++', '--') and not n.get('isPostfix'):
+            self.expr(n, env)
+            return self.lval(children(n)[0], env)
         raise AnalysisBroken('unsupported lvalue %s at %s' % (k, pos(n)))
 
     def load(self, lv, env):
@@ -948,12 +956,12 @@ class Interp:
                 if isinstance(c, dict):
                     key = i[1] if isinstance(i, tuple) else i
                     if key not in c:
-                        raise AnalysisBroken('map lookup of absent key %r at %s' % (key, pos(n)))
+                        c[key] = None        # std::map::operator[] inserts a value-initialised element (a null pointer)
                     return c[key]
                 raise AnalysisBroken('operator[] on %r at %s' % (c, pos(n)))
             if name in ('operator==', 'operator!='):
                 a, b = self.expr(args[0], env), self.expr(args[1], env)
-                eq = (a == b)
+                eq = (a is b) if (isinstance(a, Obj) or isinstance(b, Obj)) else (a == b)
                 return const(1, False, int(eq if name == 'operator==' else not eq))
             if name == 'operator+':
                 a, b = self.expr(args[0], env), self.expr(args[1], env)
@@ -1031,8 +1039,11 @@ class Interp:
             if isinstance(o, Vec):
                 if name == 'size':
                     return const(64, False, len(o.items))
-                if name in ('back', 'top'):
-                    return o.items[-1]
+                if name in ('back', 'top', 'front'):
+                    if not o.items:
+                        self.ub_event('%s()-on-empty-container' % name, n)
+                        raise Thrown('undefined behaviour: %s() on an empty container' % name)
+                    return o.items[-1] if name != 'front' else o.items[0]
                 if name in ('pop', 'pop_back'):
                     o.items.pop()
                     return None
@@ -1048,6 +1059,20 @@ class Interp:
                     return None
                 raise AnalysisBroken('unmodelled vector operation %s at %s' % (name, pos(n)))
             if isinstance(o, dict):
+                if name in ('find', 'end', 'cend'):
+                    ends = self.__dict__.setdefault('_map_ends', {})
+                    end = ends.setdefault(id(o), Obj('map-iterator', {}, 'end()'))
+                    if name != 'find':
+                        return end
+                    k_ = self.expr(args[0], env)
+                    k_ = k_[1] if isinstance(k_, tuple) and k_[:1] == ('str',) else (k_.lo if isinstance(k_, IV) and k_.concrete() else k_)
+                    try:
+                        present = k_ in o
+                    except TypeError:
+                        present = False
+                    if not present:
+                        return end
+                    return Obj('map-iterator', {'first': k_, 'second': o[k_]}, 'iterator')
                 if name == 'count':
                     k_ = self.expr(args[0], env)
                     k_ = k_[1] if isinstance(k_, tuple) else k_
@@ -1059,7 +1084,7 @@ class Interp:
                 return const(64, False, len(o[1]))
             if isinstance(o, tuple) and o and o[0] == 'str' and name == 'empty':
                 return const(1, False, int(len(o[1]) == 0))
-            if isinstance(o, tuple) and o and o[0] == 'str' and name == 'clear':
+            if isinstance(o, tuple) and o and o[0] in ('str', 'cat', 'opaque', 'num') and name == 'clear':
                 self.store(self.lval(obj, env), ('str', ''), env)
                 return None
             if isinstance(o, Obj):
